@@ -38,14 +38,14 @@ class SymWorld:
         self.consts[name] = v
         return symx.SymFloat(v)
 
-    def dataset(self, dims, coords=None, data_vars=None, attrs=None, coord_attrs=None):
+    def dataset(self, dims, coords=None, data_vars=None, attrs=None, coord_attrs=None, var_attrs=None):
         cs = {}
         for name, cd in (coords or {}).items():
             cs[name] = self._var(f"coord_{name}", cd, dims, tok=("ds", name),
                                  attrs=(coord_attrs or {}).get(name, {"tokattr": ("ds-attrs", name)}))
         dv = {}
         for name, vd in (data_vars or {}).items():
-            dv[name] = self._var(f"var_{name}", vd, dims, tok=("ds", name))
+            dv[name] = self._var(f"var_{name}", vd, dims, tok=("ds", name), attrs=(var_attrs or {}).get(name))
         return MDataset(dims, coords=cs, data_vars=dv, attrs=attrs)
 
     def _var(self, fname, vd, dims, tok=None, attrs=None, name=None):
@@ -154,7 +154,7 @@ class NativeWorld:
             self.fields[fname] = (0.03125 * self._k, 1 if self._k % 2 else -1)
         return self.fields[fname]
 
-    def dataset(self, dims, coords=None, data_vars=None, attrs=None, coord_attrs=None):
+    def dataset(self, dims, coords=None, data_vars=None, attrs=None, coord_attrs=None, var_attrs=None):
         import xarray as xr
 
         cs = {}
@@ -165,7 +165,7 @@ class NativeWorld:
         dv = {}
         for name, vd in (data_vars or {}).items():
             off, sg = self._off(f"var_{name}")
-            dv[name] = xr.Variable(tuple(vd), self._data(f"var_{name}", tuple(dims[d] for d in vd)))
+            dv[name] = xr.Variable(tuple(vd), self._data(f"var_{name}", tuple(dims[d] for d in vd)), attrs=(var_attrs or {}).get(name))
         ds = xr.Dataset(dv, coords=cs, attrs=attrs)
         # dimensions without coordinate still need to exist
         for d, n in dims.items():
